@@ -57,6 +57,12 @@ pub enum Op {
     /// wrap_async_read(..).poll_read into a ReadBuf that already holds `.0` bytes, over a source of `.1`
     /// bytes: as many incs as bytes were appended by this poll
     AsyncReadPrefilled(u8, u8),
+    /// wrap_write(..).write_all of `.0` bytes into a sink that takes 3 bytes per call and fails once it has
+    /// accepted `.1` bytes: as many incs as bytes reached the sink
+    WriteAllFailing(u8, u8),
+    /// wrap_iter over `items` items, consumed with nth(k) calls until one returns None (what skip / step_by
+    /// are built on): one inc per item taken from the inner iterator, also by the call that runs past the end
+    IterNth { items: u8, k: u8 },
 }
 
 #[derive(Debug, Clone, Serialize, Deserialize)]
@@ -102,6 +108,8 @@ fn op_strategy() -> BoxedStrategy<Op> {
         ],
         1 => (0u8..20, 0u8..40).prop_map(|(a, b)| Op::ReadToString(a, b)),
         1 => (0u8..20, 0u8..40).prop_map(|(a, b)| Op::AsyncReadPrefilled(a, b)),
+        1 => (0u8..30, 0u8..30).prop_map(|(a, b)| Op::WriteAllFailing(a, b)),
+        1 => (0u8..9, 0u8..4).prop_map(|(items, k)| Op::IterNth { items, k }),
         2 => (0u8..6, proptest::option::weighted(0.4, 0u8..6), 0u8..3).prop_map(|(items, abandon_at, extra)| Op::IterDrain { items, abandon_at, extra }),
     ]
     .boxed()
@@ -198,6 +206,29 @@ fn run_hist(c: &HistCase) -> CaseResult {
                 assert!(matches!(r, std::task::Poll::Ready(Ok(()))));
                 assert_eq!(buf.filled().len(), *have as usize + *n as usize);
             }
+            Op::WriteAllFailing(n, accept) => {
+                use std::io::Write;
+                struct Sink(usize, usize);
+                impl Write for Sink {
+                    fn write(&mut self, b: &[u8]) -> std::io::Result<usize> {
+                        if self.0 >= self.1 {
+                            return Err(std::io::Error::new(std::io::ErrorKind::Other, "scripted: sink closed"));
+                        }
+                        let k = b.len().min(3).min(self.1 - self.0);
+                        self.0 += k;
+                        Ok(k)
+                    }
+                    fn flush(&mut self) -> std::io::Result<()> {
+                        Ok(())
+                    }
+                }
+                let r = pb.wrap_write(Sink(0, *accept as usize)).write_all(&vec![7u8; *n as usize]);
+                assert_eq!(r.is_ok(), *n <= *accept);
+            }
+            Op::IterNth { items, k } => {
+                let mut it = pb.wrap_iter(0..*items);
+                while it.nth(*k as usize).is_some() {}
+            }
             Op::IterDrain { items, abandon_at, extra } => {
                 let mut it = pb.wrap_iter(0..*items);
                 let mut j = 0u8;
@@ -225,6 +256,18 @@ fn run_hist(c: &HistCase) -> CaseResult {
             Op::SetPos(p) | Op::UpdateSetPos(p) => pos = *p,
             Op::SeekCurrentZero(k) => pos = *k as u64,
             Op::ReadToString(_, n) | Op::AsyncReadPrefilled(_, n) => pos = pos.wrapping_add(*n as u64),
+            Op::WriteAllFailing(n, accept) => pos = pos.wrapping_add((*n).min(*accept) as u64),
+            Op::IterNth { items, .. } => {
+                pos = pos.wrapping_add(*items as u64);
+                if !finished {
+                    finished = true;
+                    if on_finish <= 2 {
+                        if let Some(l) = len {
+                            pos = l
+                        }
+                    }
+                }
+            }
             Op::IterDrain { items, abandon_at, .. } => {
                 pos = pos.wrapping_add(*items as u64);
                 if matches!(abandon_at, Some(j) if j < items) {
@@ -276,7 +319,7 @@ fn run_hist(c: &HistCase) -> CaseResult {
         }
         let (gp, gl) = catch(|| (pb.position(), pb.length())).map_err(|p| Fail::new("panic", format!("getter panicked after op #{i} {op:?}: {p}")))?;
         let kind = match op {
-            Op::Finish | Op::FinishWithMessage | Op::FinishAndClear | Op::FinishUsingStyle | Op::Abandon | Op::AbandonWithMessage | Op::IterDrain { .. } => "position_finish",
+            Op::Finish | Op::FinishWithMessage | Op::FinishAndClear | Op::FinishUsingStyle | Op::Abandon | Op::AbandonWithMessage | Op::IterDrain { .. } | Op::IterNth { .. } => "position_finish",
             _ => "position",
         };
         ensure!(gp == pos, kind, "after op #{i} {op:?}: position() = {gp}, history defines {pos} (ops {:?})", &c.ops[..=i]);
@@ -329,6 +372,8 @@ fn run_hist(c: &HistCase) -> CaseResult {
     v.label_if(c.ops.iter().any(|o| matches!(o, Op::ResetEta | Op::ResetElapsed)), "unrelated_calls_interleaved");
     v.label_if(c.ops.iter().any(|o| matches!(o, Op::ReadToString(h, n) if *h > 0 && *n > 0)), "read_to_string_appending");
     v.label_if(c.ops.iter().any(|o| matches!(o, Op::IterDrain { .. })), "iterator_adaptor_drained");
+    v.label_if(c.ops.iter().any(|o| matches!(o, Op::WriteAllFailing(n, a) if *a > 0 && a < n)), "write_all_failed_midway");
+    v.label_if(c.ops.iter().any(|o| matches!(o, Op::IterNth { items, k } if *items > 0 && (*items as u16) % (*k as u16 + 1) != 0)), "nth_ran_past_the_end");
     v.label_if(c.ops.iter().any(|o| matches!(o, Op::AsyncReadPrefilled(h, n) if *h > 0 && *n > 0)), "async_read_into_partly_filled_buffer");
     Ok(v)
 }
@@ -538,12 +583,12 @@ pub fn property() -> Property {
         parts: vec![
             Box::new(Gen::<HistCase> {
                 name: "history",
-                rule: "0-30 (thorough 60) ops from inc/dec/set_position/update/reset/finish*/abandon*/finish_using_style/set_length/inc_length/dec_length/unset_length, the reader adaptor (seek(Current(0)), read_to_string into a non-empty String), the tokio reader adaptor polled into a partly filled ReadBuf and the iterator adaptor (drained, abandoned from the loop body, polled again after its end) with arguments from {0,1,2,2^24,2^32+-1,2^63+-1,u64::MAX-1,u64::MAX,random}, rendered with pos/len/percent/bar/bytes/eta/per_sec keys; after every op position()/length() vs wrapping/saturating model, fraction in [0,1] (1 for len 0, 0 for unknown) read through a custom key; non-trivial = the history wraps past 0 or u64::MAX",
+                rule: "0-30 (thorough 60) ops from inc/dec/set_position/update/reset/finish*/abandon*/finish_using_style/set_length/inc_length/dec_length/unset_length, the reader adaptor (seek(Current(0)), read_to_string into a non-empty String), the tokio reader adaptor polled into a partly filled ReadBuf, the writer adaptor's write_all into a sink that fails midway and the iterator adaptor (also driven by nth() past its end; drained, abandoned from the loop body, polled again after its end) with arguments from {0,1,2,2^24,2^32+-1,2^63+-1,u64::MAX-1,u64::MAX,random}, rendered with pos/len/percent/bar/bytes/eta/per_sec keys; after every op position()/length() vs wrapping/saturating model, fraction in [0,1] (1 for len 0, 0 for unknown) read through a custom key; non-trivial = the history wraps past 0 or u64::MAX",
                 strategy: hist_strategy,
                 cases: |t| t.pick(6_000, 300_000),
                 run: run_hist,
                 signature: no_signature,
-                essential: &["wrapped_u64_boundary", "reset", "finish", "len_saturating", "hidden_target", "unrelated_calls_interleaved", "read_to_string_appending", "iterator_adaptor_drained", "async_read_into_partly_filled_buffer"],
+                essential: &["wrapped_u64_boundary", "reset", "finish", "len_saturating", "hidden_target", "unrelated_calls_interleaved", "read_to_string_appending", "iterator_adaptor_drained", "async_read_into_partly_filled_buffer", "write_all_failed_midway", "nth_ran_past_the_end"],
                 workers: w,
                 decode: Some(decode_hist),
             }),
